@@ -273,7 +273,7 @@ class TDRedfieldRelaxationTensor(RedfieldRelaxationTensor, TimeDependent):
             for a in range(dim):
                 for b in range(dim):
                     self._data[tt,a,b,:,:] = \
-                        numpy.dot(S1,numpy.dot(self._data[tt,a,b,:,:],SS))
+                        numpy.dot(SS.T,numpy.dot(self._data[tt,a,b,:,:],S1.T))
 
             
     def secularize(self):
